@@ -316,9 +316,6 @@ impl<'a> Lexer<'a> {
             // any other white space, all some form of new line
             self.state = LexingState::Subexpression;
             self.current_token_type = Some(TokenType::Subexpression);
-
-            self.text_column = 0;
-            self.text_row += 1;
         } else if c.is_numeric() {
             self.state = LexingState::Number;
             self.current_token_type = Some(TokenType::Number);
@@ -616,10 +613,6 @@ impl<'a> Lexer<'a> {
             }
             LexingState::Spaces => {
                 if c == '\n' {
-                    // wrap coordinates to new line
-                    self.text_column = 0;
-                    self.text_row += 1;
-
                     match self.could_be_sub_expression {
                         true => {
                             trace!("Found second newline in whitespace sequence. Creating subexpression.");
@@ -663,10 +656,6 @@ impl<'a> Lexer<'a> {
                     // could've arrived here by passing through whitespace state
                     // leading spaces stay part of the token, same as when the newlines are separated by spaces
                     self.current_token_type = Some(TokenType::Subexpression);
-
-                    // wrap coordinates to new line
-                    self.text_column = 0;
-                    self.text_row += 1;
 
                     // skip start new token for this character since it is a part of this token
                     self.should_create = false;
@@ -718,10 +707,6 @@ impl<'a> Lexer<'a> {
                 if c == '\n' {
                     self.current_characters.push(c);
                     self.should_create = false;
-
-                    // wrap coordinates to new line
-                    self.text_column = 0;
-                    self.text_row += 1;
                     true
                 } else if c == '\0' {
                     true
@@ -794,8 +779,13 @@ impl<'a> Lexer<'a> {
             }
         }
 
-        // need to relook at column count when deep diving into line feed, form feed, carriage return parsing
-        if c != '\n' {
+        // line and column are counted here only, for every state (newlines inside literals included)
+        // need to relook at column count when deep diving into form feed, carriage return parsing
+        if c == '\n' {
+            // wrap coordinates to new line
+            self.text_column = 0;
+            self.text_row += 1;
+        } else {
             self.text_column += 1;
         }
 
